@@ -103,10 +103,11 @@ def rt_unit(kind, version):
 
     def body(V):
         I, st = V.I, V.st
-        size = V.choose(["2atoms", "empty"], "size")
-        k, bonds = (2, ((1, 0),)) if size == "2atoms" else (0, ())
+        # "1atom": the smallest non-empty object (keeps a change that branches on every stored value within the exploration budget)
+        size = V.choose(["2atoms", "empty", "1atom"], "size")
+        k, bonds = (2, ((1, 0),)) if size == "2atoms" else ((1, ()) if size == "1atom" else (0, ()))
         if ens:
-            nc = V.choose([2, 1], "nc") if size == "2atoms" else 0
+            nc = V.choose([2, 1], "nc") if size == "2atoms" else (1 if size == "1atom" else 0)
             src = M.mk_ens(V, nc, k, bonds=bonds, name="s")
             for i, a in enumerate(src.fields["_atoms"].items):
                 src.fields["_atoms"].items[i] = M.mk_atom(V, f"s_a{i}", parent=src, full=True, label=M.opt_str(V, f"s_a{i}_label"))
